@@ -326,6 +326,9 @@ pub fn run(tier: Tier) -> Report {
                     replay: json!({"kind": "ops", "n": n.to_string(), "ops": ops_json(&f.trace)}),
                 });
             }
+            if ex.found.is_empty() && !ex.cap_hit && n % 4 == 0 {
+                crate::sr::cross_check(fresh(), ex.states, "sized-writer graph", &mut rep);
+            }
             if ex.found.is_empty() {
                 match validate_traces(fresh, &ex) {
                     Ok(k) => rep.traces_validated += k,
